@@ -21,4 +21,13 @@ PROPS = {
     },
 }
 
+PROPS["C20"] = {
+    "rule": "report trees (corpus + every C0/DEL/C1 character at start, middle and end of descriptions, attribute names and values, as UTF-8 and as stray bytes + seeded random trees of depth<=3 with hostile strings) printed by the real printInfo through the verif hook, and end-to-end CLI runs on JWT / SSH public key files whose displayed strings are attacker-controlled; non-trivial = every case (each prints a report); distinct = distinct (op,input)",
+    "trusted": ["cmd/decipher verif hook (reads trees, calls the real printInfo)", "Go's unicode/utf8 decoding re-implemented in Lib/Utf8.v (compared with the implementation's sanitize on every tree)"],
+    "assumptions": ["terminal interpretation of bytes >= 0xA0 is outside the property", "file paths come from the command line / directory listing, not from inspected content, and are printed verbatim"],
+    "level_text": "Theorems over all report trees with arbitrary byte strings in every field: the printed report consists of exactly one LF-terminated line per description and per attribute, each starting with the indentation its depth dictates, and contains no C0 control other than those terminators and no DEL; the layout theorems hold for every sanitiser whose output is free of LF. Correspondence: the real printInfo's bytes equal the model's on every generated tree.",
+    "level_note": "Trusted: Coq kernel; Model/Render.v as a model of printInfo/sanitize (tied by byte-exact comparison of the CLI's output on generated trees and files); Lib/Utf8.v as a model of utf8.DecodeRune; extraction + driver; the printInfo hook.",
+    "technique": "Coq proof by nested structural induction over report trees + differential correspondence check of printInfo",
+}
+
 NOT_YET = {}
